@@ -261,6 +261,36 @@ def make_machine(stats):
                 self.fail("guard state after a block context%s is not the state before it" % (
                     " whose closing statement raised (%s)" % fault if fault else ""))
 
+        @rule(v=st.integers(0, 1), form=st.sampled_from(["lc", "bool", "int1"]), depth=st.integers(1, 4), raises=st.booleans(), twice=st.booleans())
+        def reenter(self, v, form, depth, raises, twice):
+            """ONE wrapper object returned by guarded(cond) is entered again while it is active (a guarded function that
+            calls itself), and called a second time afterwards"""
+            self.hist.append(["reenter", v, form, depth, raises, twice])
+            before = self.triple()
+            rt = self.rt
+            machine = self
+            vv = None if form == "int1" else v
+            box = {}
+
+            def fn(k):
+                machine.check_inside([vv] * (depth - k + 1) if vv is not None else [])
+                if k > 0:
+                    out = box["w"](k - 1)
+                    machine.check_inside([vv] * (depth - k + 1) if vv is not None else [])
+                    return out
+                if raises:
+                    raise Sentinel()
+                return rt.PrivVal(1)
+            box["w"] = rt.guarded(self.mkcond(v, form))(fn)
+            for _ in range(2 if twice else 1):
+                try:
+                    box["w"](depth)
+                except Sentinel:
+                    pass
+                if any(a is not b for a, b in zip(before, self.triple())):
+                    self.fail("guard state after a guarded function that re-enters its own wrapper (%d levels, %s) is not the state before it" % (
+                        depth, "left by an exception" if raises else "returning"))
+
         # -- invariant
         def check_inside(self, extra):
             rt = self.rt
@@ -395,6 +425,8 @@ def replay(case):
                 m.call_tree(totuple(h[1]), h[2])
             elif h[0] == "block":
                 m.block_walk(h[1], h[2], h[3], h[4] if len(h) > 4 else None)
+            elif h[0] == "reenter":
+                m.reenter(*h[1:])
             m.hist.pop()     # the rule appended it again
             m.hist.append(h)
             m.check_inside([])
